@@ -123,7 +123,31 @@ pub fn alu_check(path: &str) {
         let g = eval(sel, a, b, cin);
         check(5, sel, a, b, cin, g, &mut first);
     }
-    println!("{}", json!({"points": points, "calls": calls, "mismatches": mism, "per_sel": per_sel, "first": first}));
+    // the 4-bit select code of each function as the control store addresses it (MALUS3..0)
+    let codes: Vec<u8> = (0..16u8).map(|i| alu_sel(i) as u8).collect();
+    // the ALU's carry / zero / negative outputs as the rest of the machine sees them (the signal lines feeding the next-address logic)
+    let mut lines_bad: Vec<Value> = vec![];
+    {
+        let mut m = fresh();
+        let mut raw = base_raw();
+        for maddr in [0usize, 6, 78, 240, 392, 511] {
+            for k in 0..8u8 {
+                raw.maddr = maddr;
+                raw.alu_carry = k & 4 != 0;
+                raw.alu_zero = k & 2 != 0;
+                raw.alu_negative = k & 1 != 0;
+                raw.state = State::Running;
+                m.raw_mut().verif_restore(&raw);
+                let s = m.signals();
+                let got = (s.carry_out(), s.zero_out(), s.negative_out());
+                if got != (raw.alu_carry, raw.alu_zero, raw.alu_negative) && lines_bad.len() < 5 {
+                    lines_bad.push(json!({"maddr": maddr, "alu_outputs_czn": [raw.alu_carry, raw.alu_zero, raw.alu_negative],
+                        "signal_lines_czn": [got.0, got.1, got.2]}));
+                }
+            }
+        }
+    }
+    println!("{}", json!({"points": points, "calls": calls, "mismatches": mism, "per_sel": per_sel, "first": first, "codes": codes, "lines_bad": lines_bad}));
 }
 
 fn fresh() -> Machine {
